@@ -1102,7 +1102,8 @@ def run(chk, replay=None):
     t3 = time.time()
     chk.cov["phase_s"] = {"generate": round(t1 - t0, 1), "run_both": round(t2 - t1, 1), "oracle": round(t3 - t2, 1)}
     chk.cov["distinct_nontrivial"] = len(sigs)
-    chk.cov["rule"] = ("per round: 1-6 valid frames (3 codec instances, 6 tags) in every segmentation class (whole, byte-by-byte, EVERY "
+    chk.cov["rule"] = ("per round: 1-6 valid frames (3 codec instances of ProtobufCodecLite, 6 tags; + the OLD ProtobufCodec of examples/protobuf/codec/"
+                       "codec.cc with re-checksummed nameLen / type-name variants) in every segmentation class (whole, byte-by-byte, EVERY "
                        "two-way split, random k-way with empty chunks), then single-bit flips in each of the 4 regions, multi-byte "
                        "corruptions, re-checksummed payload/tag corruptions, truncations, length fields {-1,-2^31,0,min-1,min,max,max+1,"
                        "2^31-1,len+-1}, garbage tails, random bytes, frames > 1 KiB; HTTP: 1-3 pipelined requests (25% invalid by method/"
@@ -1116,7 +1117,8 @@ def run(chk, replay=None):
         chk.cov["oracle_failures"] = [{"case": c.cid, "class": c.tag, "op": idx, "what": msg[:300]} for (c, idx, msg) in oracle_bad[:8]]
     chk.add_obligation("correspondence: extracted models (codec_feed with C19_Wire.wire_parse for RpcMessage payloads / http_feed / "
                        "fillEmptyBuffer over the C10 Buffer model / deliver = onMessage over the Buffer model + default error callback / "
-                       "srv_deliver = HttpServer::onMessage / response_bytes / adler32) == real ProtobufCodecLite, RpcCodec, HttpContext, "
+                       "srv_deliver = HttpServer::onMessage / response_bytes / adler32 / ocodec_feed + oencode = the old ProtobufCodec) == real "
+                       "ProtobufCodecLite, RpcCodec, ProtobufCodec (examples/protobuf/codec/codec.cc compiled from the tree), HttpContext, "
                        "TcpConnection + HttpServer on a socketpair, HttpResponse, zlib adler32 on every case, line by line", not corr_bad)
     chk.add_obligation("oracle: independent reference decoding of every delivered prefix == the implementation's events, unconsumed count, "
                        "abandoned flag; wire format of fillEmptyBuffer; RFC 1950 Adler-32", not oracle_bad)
@@ -1124,10 +1126,13 @@ def run(chk, replay=None):
                 "harness/C18_driver.cc: kinds raw/pb/rpc/http: error callback = record + abandon, the HTTP caller loop (parseRequest; "
                 "false => abandon; gotAll => deliver, reset, again); kinds conn/hsrv: a real TcpConnection on a socketpair whose handleRead is "
                 "called after each chunk was written to the peer (default error callback; HttpServer::onMessage with demoCallback); "
-                "#define private public for HttpContext::state_, TcpConnection::handleRead, HttpServer::onMessage",
+                "#define private public for HttpContext::state_, TcpConnection::handleRead, HttpServer::onMessage; harness/C18_oldcodec.cc: "
+                "#include of the tree's examples/protobuf/codec/codec.cc behind a narrow interface (kind old; createMessage finds the one linked "
+                "type muduo.net.RpcMessage; the source's hash is part of the driver's cache key)",
                 "translators lib/gen_consts.py and lib/gen_C18.py (every comparison / assertion / offset argument of onMessage, parse, "
                 "validateChecksum, fillEmptyBuffer, serializeToBuffer, processRequestLine, parseRequest, HttpServer::onMessage/onRequest, "
-                "appendToBuffer; the tag of RpcCodec.cc) over the clang 14 JSON AST",
+                "appendToBuffer; ProtobufCodec::onMessage/parse/fillEmptyBuffer and the three constants of codec.h; the tag of RpcCodec.cc) "
+                "over the clang 14 JSON AST",
                 "coq/C19_Wire.v, C19_WireProofs.v (RpcMessage payload format and its round trip; owned by C19, imported read-only)",
                 "translator lib/gen_consts.py (clang 14 JSON AST) for kHeaderLen/kChecksumLen/kMaxMessageLen",
                 "environment: protobuf 3.21 ParseFromArray/serializer (Section variables parse/ser in the generic theorems; for the "
